@@ -13,29 +13,30 @@ def verMinor (b : Nat) : Outcome Nat :=
     (if b % 16 ≤ 9 then .ok (b / 16 * 10 + b % 16) else if b % 16 = 10 then .ok (b / 16) else .pyError "ValueError")
   else .decodingError
 
-def api_get_device_id (s : BmcState) : Outcome (BmcState × Result) :=
-  (transact reqGetDeviceId rspGetDeviceId 0 (fresh reqGetDeviceId) s).bind fun (s', v) =>
-    (verMinor (bitAt v 3 2)).bind fun fwMinor =>
-    (verMinor (intAt v 4 / 16 % 16)).bind fun ipmiMinor =>
-    .ok (s', .deviceId {
-      deviceId := intAt v 1, revision := bitAt v 2 0, providesSdrs := n2b (bitAt v 2 2),
-      updateInProgress := n2b (bitAt v 3 1), fwMajor := bitAt v 3 0, fwMinor := fwMinor,
-      ipmiMajor := intAt v 4 % 16, ipmiMinor := ipmiMinor,
-      support := bitAt v 5 0 + 2 * bitAt v 5 1 + 4 * bitAt v 5 2 + 8 * bitAt v 5 3 + 16 * bitAt v 5 4
-                 + 32 * bitAt v 5 5 + 64 * bitAt v 5 6 + 128 * bitAt v 5 7,
-      manufacturer := intAt v 6, product := intAt v 7, aux := optArrAt v 8 })
+def api_get_device_id : Exchange :=
+  { req := reqGetDeviceId, rsp := rspGetDeviceId, vals := .ok (fresh reqGetDeviceId),
+    post := fun v =>
+      (verMinor (bitAt v 3 2)).bind fun fwMinor =>
+      (verMinor (intAt v 4 / 16 % 16)).bind fun ipmiMinor =>
+      .ok (.deviceId {
+        deviceId := intAt v 1, revision := bitAt v 2 0, providesSdrs := n2b (bitAt v 2 2),
+        updateInProgress := n2b (bitAt v 3 1), fwMajor := bitAt v 3 0, fwMinor := fwMinor,
+        ipmiMajor := intAt v 4 % 16, ipmiMinor := ipmiMinor,
+        support := bitAt v 5 0 + 2 * bitAt v 5 1 + 4 * bitAt v 5 2 + 8 * bitAt v 5 3 + 16 * bitAt v 5 4
+                   + 32 * bitAt v 5 5 + 64 * bitAt v 5 6 + 128 * bitAt v 5 7,
+        manufacturer := intAt v 6, product := intAt v 7, aux := optArrAt v 8 }) }
 
-def api_get_device_guid (s : BmcState) : Outcome (BmcState × Result) :=
-  (transact reqGetDeviceGuid rspGetDeviceGuid 0 (fresh reqGetDeviceGuid) s).bind fun (s', v) =>
-    .ok (s', .bytes (arrAt v 1))
+def api_get_device_guid : Exchange :=
+  { req := reqGetDeviceGuid, rsp := rspGetDeviceGuid, vals := .ok (fresh reqGetDeviceGuid),
+    post := fun v => .ok (.bytes (arrAt v 1)) }
 
-def api_cold_reset (s : BmcState) : Outcome (BmcState × Result) :=
-  (transact reqColdReset rspColdReset 0 (fresh reqColdReset) s).bind fun (s', _) => .ok (s', .unit)
+def api_cold_reset : Exchange :=
+  { req := reqColdReset, rsp := rspColdReset, vals := .ok (fresh reqColdReset), post := fun _ => .ok .unit }
 
-def api_warm_reset (s : BmcState) : Outcome (BmcState × Result) :=
-  (transact reqWarmReset rspWarmReset 0 (fresh reqWarmReset) s).bind fun (s', _) => .ok (s', .unit)
+def api_warm_reset : Exchange :=
+  { req := reqWarmReset, rsp := rspWarmReset, vals := .ok (fresh reqWarmReset), post := fun _ => .ok .unit }
 
-def api_set_watchdog_timer (c : WatchdogCfg) (s : BmcState) : Outcome (BmcState × Result) :=
+def api_set_watchdog_timer (c : WatchdogCfg) : Exchange :=
   let r := fresh reqSetWatchdogTimer
   let r := setBit r 0 0 c.timerUse
   let r := setBit r 0 2 (b2n c.dontStop)
@@ -45,17 +46,18 @@ def api_set_watchdog_timer (c : WatchdogCfg) (s : BmcState) : Outcome (BmcState 
   let r := setInt r 2 c.preInterval
   let r := setInt r 3 c.clearFlags
   let r := setInt r 4 c.initial
-  (transact reqSetWatchdogTimer rspSetWatchdogTimer 0 r s).bind fun (s', _) => .ok (s', .unit)
+  { req := reqSetWatchdogTimer, rsp := rspSetWatchdogTimer, vals := .ok r, post := fun _ => .ok .unit }
 
-def api_get_watchdog_timer (s : BmcState) : Outcome (BmcState × Result) :=
-  (transact reqGetWatchdogTimer rspGetWatchdogTimer 0 (fresh reqGetWatchdogTimer) s).bind fun (s', v) =>
-    .ok (s', .watchdog {
-      timerUse := bitAt v 1 0, running := n2b (bitAt v 1 2), dontLog := n2b (bitAt v 1 3),
-      preInterrupt := bitAt v 2 2, action := bitAt v 2 0, preInterval := intAt v 3, expFlags := intAt v 4,
-      initial := intAt v 5, present := intAt v 6 })
+def api_get_watchdog_timer : Exchange :=
+  { req := reqGetWatchdogTimer, rsp := rspGetWatchdogTimer, vals := .ok (fresh reqGetWatchdogTimer),
+    post := fun v =>
+      .ok (.watchdog {
+        timerUse := bitAt v 1 0, running := n2b (bitAt v 1 2), dontLog := n2b (bitAt v 1 3),
+        preInterrupt := bitAt v 2 2, action := bitAt v 2 0, preInterval := intAt v 3, expFlags := intAt v 4,
+        initial := intAt v 5, present := intAt v 6 }) }
 
-def api_reset_watchdog_timer (s : BmcState) : Outcome (BmcState × Result) :=
-  (transact reqResetWatchdogTimer rspResetWatchdogTimer 0 (fresh reqResetWatchdogTimer) s).bind fun (s', _) =>
-    .ok (s', .unit)
+def api_reset_watchdog_timer : Exchange :=
+  { req := reqResetWatchdogTimer, rsp := rspResetWatchdogTimer, vals := .ok (fresh reqResetWatchdogTimer),
+    post := fun _ => .ok .unit }
 
 end PyIpmi.Model.Api
